@@ -9,6 +9,7 @@ package vdr
 
 import (
 	"bufio"
+	"crypto"
 	"crypto/ecdsa"
 	"crypto/ed25519"
 	"crypto/elliptic"
@@ -62,6 +63,9 @@ type wOp struct {
 	Hist    []string `json:"hist,omitempty"`  // resolve: versions written to the node's own store for this DID, oldest first
 	Local   string   `json:"local,omitempty"` // absent | active | deactivated: expectation for the oracle (the model recomputes it from hist)
 	Allow   bool     `json:"allow,omitempty"`
+	NonNil  bool     `json:"nonnil,omitempty"` // resolve without AllowDeactivated but with a non-nil (empty) ResolveMetadata
+	KeyBound *bool   `json:"keybound,omitempty"` // oracle data: the document's key IS the key the identifier encodes (did:jwk / did:key)
+	Digest  string   `json:"digest,omitempty"`   // oracle data: digest of the whole resolved document
 	Fault   bool     `json:"fault,omitempty"` // resolve: the node's SQL connection has been closed (storage fault) before this resolution
 	KeyOK   bool     `json:"keyok,omitempty"` // did:jwk / did:key: the library decoded the identifier into a supported public key
 	Resps   []wResp  `json:"resps,omitempty"`
@@ -187,6 +191,15 @@ func (n *wNode) wApplyHistory(id did.DID, hist []string) {
 		active := hist[i] == "active"
 		if id.Method == "nuts" {
 			doc := did.Document{ID: id}
+			if hist[i] == "controlled" || hist[i] == "orphaned" { // no capabilityInvocation of its own: active only through an active controller
+				ctrl := did.MustParseDID("did:nuts:controllerOf" + id.ID)
+				if hist[i] == "orphaned" {
+					ctrl = did.MustParseDID("did:nuts:nobody" + id.ID)
+				} else {
+					n.wApplyHistory(ctrl, []string{"active"})
+				}
+				doc.Controller = []did.DID{ctrl}
+			}
 			if active {
 				kid := did.DIDURL{DID: id, Fragment: "k"}
 				doc.CapabilityInvocation = did.VerificationRelationships{{VerificationMethod: &did.VerificationMethod{ID: kid, Controller: id, Type: "JsonWebKey2020"}}}
@@ -217,18 +230,28 @@ func (n *wNode) wApplyHistory(id did.DID, hist []string) {
 	}
 }
 
+var wLastDoc *did.Document
+var wNonNil bool
+
 func (n *wNode) resolveOnce(id did.DID, allow bool, resps []wResp) (string, int) {
+	wLastDoc = nil
 	n.rt.mu.Lock()
 	n.rt.resps, n.rt.n = resps, 0
 	n.rt.mu.Unlock()
 	var md *resolver.ResolveMetadata
 	if allow {
 		md = &resolver.ResolveMetadata{AllowDeactivated: true}
+	} else if wNonNil || id.Method == "x509" {
+		md = &resolver.ResolveMetadata{}
 	}
 	doc, meta, err := n.m.Resolver().Resolve(id, md)
 	if err != nil {
+		if id.Method == "x509" {
+			return "err:x509", n.rt.n
+		}
 		return "err:" + wErr(err), n.rt.n
 	}
+	wLastDoc = doc
 	return fmt.Sprintf("ok:%s:%v", whx(doc.ID.String()), meta.Deactivated), n.rt.n
 }
 
@@ -253,7 +276,16 @@ func wExec(t *testing.T, node **wNode, op *wOp) (line string) {
 			n.sqlDB.Close()
 			n.faulty = true
 		}
+		wNonNil = op.NonNil
 		out, reqs := n.resolveOnce(id, op.Allow, op.Resps)
+		if wLastDoc != nil {
+			raw, _ := json.Marshal(wLastDoc)
+			op.Digest = hash.SHA256Sum(raw).String()[:12]
+			if id.Method == "jwk" || id.Method == "key" {
+				b := wKeyBound(id, wLastDoc)
+				op.KeyBound = &b
+			}
+		}
 		// library verdict for the key methods (data for the model), and a second identical resolution
 		if id.Method == "jwk" || id.Method == "key" {
 			op.KeyOK = strings.HasPrefix(out, "ok:")
@@ -269,6 +301,50 @@ func wExec(t *testing.T, node **wNode, op *wOp) (line string) {
 		return fmt.Sprintf("resolve reqs=%d out=%s", reqs, out)
 	}
 	return "bad-op:" + op.Op
+}
+
+// wKeyBound: is every verification method of the document the key that the identifier itself encodes?
+func wKeyBound(id did.DID, doc *did.Document) bool {
+	if len(doc.VerificationMethod) == 0 {
+		return false
+	}
+	var want []byte
+	if id.Method == "jwk" {
+		raw, err := base64.RawStdEncoding.DecodeString(id.ID)
+		if err != nil {
+			return false
+		}
+		k, err := jwk.ParseKey(raw)
+		if err != nil {
+			return false
+		}
+		want, _ = k.Thumbprint(crypto.SHA256)
+	}
+	for _, vm := range doc.VerificationMethod {
+		pk, err := vm.PublicKey()
+		if err != nil {
+			return false
+		}
+		k, err := jwk.FromRaw(pk)
+		if err != nil {
+			return false
+		}
+		got, _ := k.Thumbprint(crypto.SHA256)
+		if id.Method == "jwk" {
+			if string(got) != string(want) {
+				return false
+			}
+		} else if ed, ok := pk.(ed25519.PublicKey); ok {
+			mc, err := base58.Decode(id.ID[1:])
+			if err != nil || len(mc) != 34 || string(mc[2:]) != string(ed) {
+				return false
+			}
+		}
+		if vm.Controller.String() != id.String() || vm.ID.DID.String() != id.String() {
+			return false
+		}
+	}
+	return true
 }
 
 // ---------- generator
@@ -332,6 +408,7 @@ func wGenerate(seed int64, thorough bool) []wOp {
 		ops = append(ops, wOp{Op: "node", Methods: methodSets[(ni+int(seed))%len(methodSets)], Strict: r.Intn(4) != 0})
 		for k := 0; k < per; k++ {
 			op := wOp{Op: "resolve", Allow: r.Intn(3) == 0}
+			op.NonNil = !op.Allow && r.Intn(2) == 0
 			switch x := r.Intn(10); {
 			case x < 5: // did:web, local and/or remote
 				host := fmt.Sprintf("h%d.example", r.Intn(40))
@@ -365,6 +442,9 @@ func wGenerate(seed int64, thorough bool) []wOp {
 				id := fmt.Sprintf("%s%d", []string{"8Zr7", "Abc9", "B1xY"}[r.Intn(3)], r.Intn(30))
 				op.M, op.ID, op.Tag = whx("nuts"), whx(id), "nuts"
 				op.Hist = hists[r.Intn(len(hists))]
+				if r.Intn(4) == 0 {
+					op.Hist = [][]string{{"controlled"}, {"active", "controlled"}, {"controlled", "deactivated"}, {"controlled", "controlled"}, {"orphaned"}, {"active", "orphaned"}}[r.Intn(6)]
+				}
 			case x < 8:
 				id := wJWK(r, r.Intn(5) == 0)
 				if r.Intn(6) == 0 {
@@ -374,6 +454,10 @@ func wGenerate(seed int64, thorough bool) []wOp {
 			case x < 9:
 				op.M, op.ID, op.Tag = whx("key"), whx(wDidKey(r)), "key"
 			default:
+				if r.Intn(3) == 0 {
+					op.M, op.ID, op.Tag = whx("x509"), whx("0:sha256:WE4P5dd8DnLHSkyHaIjhp4udlkF9LqoKwCvu9gl38jk::san:otherName:"+strconv.Itoa(r.Intn(100))), "x509-no-chain"
+					break
+				}
 				op.M, op.ID, op.Tag = whx([]string{"example", "ion", "ethr", "peer", "x", "webs"}[r.Intn(6)]), whx("abc"), "other-method"
 			}
 			ops = append(ops, op)
@@ -467,6 +551,12 @@ func TestVerifC18(t *testing.T) {
 		op.Local = "absent"
 		if len(op.Hist) > 0 {
 			op.Local = op.Hist[len(op.Hist)-1]
+			if op.Local == "controlled" {
+				op.Local = "active"
+			}
+			if op.Local == "orphaned" {
+				op.Local = "deactivated" // no active controller: does not resolve unless allowed
+			}
 			if wunhx(op.M) == "nuts" {
 				for _, v := range op.Hist {
 					if v == "deactivated" {
